@@ -38,7 +38,7 @@ def main() -> int:
         os.chdir(cwd)
         os.execve(sys.executable, [sys.executable, '-B', os.path.join(VERIF, 'check.py')] + sys.argv[1:], env)
     sys.path.insert(0, VERIF)
-    sys.path.insert(0, '/repo')
+    sys.path.insert(0, os.environ.get('VERIF_REPO') or '/repo')   # VERIF_REPO: a snapshot of /repo for background soaks
     try:
         from sim import harness
         return harness.main(sys.argv[1:])
